@@ -1,8 +1,54 @@
-/- Driver handlers for area `topo` (stub: replace `handle`). -/
+/- Driver handlers for area `topo` (C11: orderings). -/
 import VDriver.Util
+import VDriver.Auth
+import VDriver.Stateres
+import VModel.StateRes
 namespace V.Driver.TopoOps
-open V V.Driver
+open V V.Json V.Driver V.Auth V.StateRes V.Driver.AuthOps V.Driver.StateresOps
 
-def handle (_op : String) (_args : Array String) : Option String := none
+/-- ancestors of `e` (through `parents`) among `evs` -/
+def ancestorsIn (parents : Event → List Bytes) (evs : List Event) (e : Event) : List Bytes :=
+  let rec go (fuel : Nat) (frontier : List Event) (seen : List Bytes) : List Bytes :=
+    match fuel with
+    | 0 => seen
+    | fuel + 1 =>
+      let next := (frontier.map parents).flatten.filter (fun id => !seen.contains id)
+      let nextEvs := next.filterMap (findByID evs)
+      if nextEvs.isEmpty then seen else go fuel nextEvs (seen ++ (eventMapFromEvents nextEvs).map (·.eventID))
+  go (evs.length + 1) [e] []
+
+/-- permutation of the distinct input events in which each event comes after all its ancestors present in the input -/
+def orderProps (parents : Event → List Bytes) (input : List Event) (out : List Bytes) : String :=
+  let distinct := (eventMapFromEvents input).map (·.eventID)
+  if sortIDs out != sortIDs distinct then
+    (if out.length != distinct.length then "violates:not-a-permutation-of-distinct-inputs(length)" else "violates:not-a-permutation-of-distinct-inputs")
+  else
+    let pos (id : Bytes) : Nat := (out.zipIdx.find? (fun x => x.1 == id)).map (·.2) |>.getD 0
+    let bad := (eventMapFromEvents input).any (fun e =>
+      (ancestorsIn parents (eventMapFromEvents input) e).any (fun a => a != e.eventID && pos a > pos e.eventID))
+    if bad then "violates:descendant-before-ancestor" else "ok"
+
+def handle (op : String) (args : Array String) : Option String :=
+  match op, args.toList with
+  | "order", ver :: kind :: orderS :: evArgs =>
+    match parseEvArgs (strBytes ver) evArgs with
+    | none => some "bad-op"
+    | some es =>
+      let arr := es.toArray
+      let input := (idxList orderS).map (fun i => arr[i]!)
+      let out := if kind == "auth" then reverseTopoAuth [] (getCreateEvent input) input else reverseTopoPrev input
+      some (",".intercalate (out.map (fun e => bytesStr e.eventID)))
+  | "order_props", ver :: resH :: kind :: orderS :: evArgs =>
+    match parseEvArgs (strBytes ver) evArgs with
+    | none => some "bad-op"
+    | some es =>
+      let arr := es.toArray
+      let input := (idxList orderS).map (fun i => arr[i]!)
+      let res := bytesStr ((unhex resH).getD [])
+      if res.startsWith "panic" then some "ok\tviolates:panic" else
+      let out : List Bytes := if res.isEmpty then [] else (res.splitOn ",").map strBytes
+      let parents : Event → List Bytes := if kind == "auth" then (fun e => e.authEventIDs) else (fun e => e.prevEventIDs)
+      some ("ok\t" ++ orderProps parents input out)
+  | _, _ => none
 
 end V.Driver.TopoOps
